@@ -57,7 +57,7 @@ def replay_witnesses(ctx, driver_sources=("gen_driver.c", "ops_gen_core.c", "ref
         w = f.get("witness", {})
         if f.get("status") != "known" or "module" not in w or "op" not in w: continue
         names = w.get("types") or re.findall(r"(\w+)\s*::=", w["module"].split("BEGIN", 1)[1])
-        b = bundle.Bundle("w" + f["id"], w["module"], names, driver_sources=driver_sources)
+        b = bundle.Bundle("w" + f["id"], w["module"], names, driver_sources=driver_sources, **({"opts": tuple(w["opts"])} if w.get("opts") else {}))
         try:
             exe = b.build()
             line = f"@{w.get('type', names[0])} {w['op']}"
